@@ -37,6 +37,16 @@ def run_props(label, props):
     return out
 
 
+def run_margin(label, props):
+    out = []
+    for p in props:
+        r = sh('cd %s && ./check %s --tier %s --margin' % (V, p, TIER), timeout=3600)
+        line = [l for l in r.stdout.splitlines() if l.startswith('MARGIN')]
+        print('%s %s' % (label, line[0] if line else 'ERROR ' + r.stderr[-200:]), flush=True)
+        out.append((p, line[0] if line else 'ERROR'))
+    return out
+
+
 def with_patch(label, patch_cmd, props):
     assert clean(), '/repo working tree is not clean'
     r = sh(patch_cmd)
@@ -45,6 +55,8 @@ def with_patch(label, patch_cmd, props):
         sh('git -C /repo reset -q --hard HEAD')
         return []
     try:
+        if os.environ.get('MUT_MARGIN'):
+            return run_margin(label, props)
         return run_props(label, props)
     finally:
         sh('git -C /repo reset -q --hard HEAD')
